@@ -94,6 +94,7 @@ package xmss
 //@   exit[XF] forall d :: 0 <= d && d < 32 ==> key[d] == old(prfAddr(hashFunction, pubSeed, addr, 0))[d] || hashFunction > 2
 //@   exit[XF] forall d :: 0 <= d && d < 64 ==> buf[d] == spec.xorArr(spec.sub(old(in), 64), spec.cat(old(prfAddr(hashFunction, pubSeed, addr, 1)), 32, old(prfAddr(hashFunction, pubSeed, addr, 2)), 32), 64)[d] || hashFunction > 2
 //@   ensures[XF] hashFunction <= 2 ==> forall q :: 0 <= q && q < len(out) && q < 32 ==> out[q] == spec.xhash(hashFunction, spec.corein(1, old(prfAddr(hashFunction, pubSeed, addr, 0)), 32, spec.xorArr(spec.sub(old(in), 64), spec.cat(old(prfAddr(hashFunction, pubSeed, addr, 1)), 32, old(prfAddr(hashFunction, pubSeed, addr, 2)), 32), 64), 64), 128, q)
+//@   ensures[XF] hashFunction <= 2 ==> forall q :: 0 <= q && q < len(out) && q < 32 ==> out[q] == spec.randHash(hashFunction, spec.sub(pubSeed, 32), arr(old(addr)), spec.sub(old(in), 64))[q]
 //@   assigns out, *addr
 //@   loop 1 invariant 0 <= i && i <= 2*n
 //@   loop 1 invariant[XF] forall d :: 0 <= d && d < i ==> buf[d] == spec.bxor(in[d], bitMask[d])
@@ -155,17 +156,37 @@ package xmss
 //@   loop 1 decreases l
 //@   loop 2 invariant 0 <= i && i <= bound && bound == l / 2 && forall k_ :: 0 <= k_ && k_ < 5 ==> addr[k_] == old(addr[k_])
 
+// Functional contract of the authentication-path walk: root = fold(h), the Merkle fold of RFC 8391 Algorithm 13
+// (spec/00_core.smt2: fold, randHash, shrn).  The congruence lemmas say randHash depends on its address only through
+// words 0..6 and on its input only through its first 64 bytes; they are proved from the prelude definitions and
+// array extensionality, and randHash's definition is hidden inside validateAuthPath (the lemma is all it needs).
+//@ lemma xmss.L_addrBytes_cong[XF] : forall A1:arr, A2:arr :: (forall k_ :: 0 <= k_ && k_ < 8 ==> A1[k_] == A2[k_]) ==> spec.addrBytes(A1) == spec.addrBytes(A2)
+//@ lemma xmss.L_xorArr_cong[XF] : forall X1:arr, X2:arr, M:arr :: (forall d_ :: 0 <= d_ && d_ < 64 ==> X1[d_] == X2[d_]) ==> spec.xorArr(X1, M, 64) == spec.xorArr(X2, M, 64)
+//@ lemma xmss.L_randHash_cong[XF] uses xmss.L_addrBytes_cong,xmss.L_xorArr_cong : forall hf, PS:arr, A1:arr, A2:arr, X1:arr, X2:arr :: (forall k_ :: 0 <= k_ && k_ < 7 ==> A1[k_] == A2[k_]) && (forall d_ :: 0 <= d_ && d_ < 64 ==> X1[d_] == X2[d_]) ==> spec.randHash(hf, PS, A1, X1) == spec.randHash(hf, PS, A2, X2)
+//@ pred bufIs(buffer, lo, X) := forall q_ :: 0 <= q_ && q_ < 32 ==> buffer[lo+q_] == X[q_]
+//@ pred bufAuth(buffer, lo, authpath, k) := forall q_ :: 0 <= q_ && q_ < 32 ==> buffer[lo+q_] == authpath[32*k+q_]
+
 //@ func validateAuthPath
+//@   props C04 C01 C06
+//@   pure
+//@   use xmss.L_randHash_cong
+//@   hide spec.randHash
 //@   requires n == 32 && 1 <= h && h <= 30 && len(root) >= 32 && len(leaf) >= 32 && len(authpath) >= h*32 && len(pub_seed) >= 32
 //@   ensures forall k_ :: 0 <= k_ && k_ < 5 ==> addr[k_] == old(addr[k_])
+//@   ensures[XF] hashFunc <= 2 ==> bufIs(root, 0, spec.foldTop(hashFunc, spec.sub(pub_seed, 32), arr(old(addr)), spec.sub(old(leaf), 32), old(leafIdx), authpath, h))
 //@   assigns root[0:32], *addr
-//@   loop 1 invariant 0 <= j && j <= n
-//@   loop 2 invariant 0 <= j && j <= n
-//@   loop 3 invariant 0 <= j && j <= n
-//@   loop 4 invariant 0 <= j && j <= n
+//@   loop 1 invariant 0 <= j && j <= n && forall q_ :: 0 <= q_ && q_ < j ==> buffer[32+q_] == leaf[q_]
+//@   loop 2 invariant 0 <= j && j <= n && (forall q_ :: 0 <= q_ && q_ < 32 ==> buffer[32+q_] == leaf[q_]) && forall q_ :: 0 <= q_ && q_ < j ==> buffer[q_] == authpath[q_]
+//@   loop 3 invariant 0 <= j && j <= n && forall q_ :: 0 <= q_ && q_ < j ==> buffer[q_] == leaf[q_]
+//@   loop 4 invariant 0 <= j && j <= n && (forall q_ :: 0 <= q_ && q_ < 32 ==> buffer[q_] == leaf[q_]) && forall q_ :: 0 <= q_ && q_ < j ==> buffer[32+q_] == authpath[q_]
 //@   loop 5 invariant 0 <= i && i <= h - 1 && authPathOffset == (i+1)*n && forall k_ :: 0 <= k_ && k_ < 5 ==> addr[k_] == old(addr[k_])
-//@   loop 6 invariant 0 <= j && j <= n
-//@   loop 7 invariant 0 <= j && j <= n
+//@   loop 5 invariant[XF] leafIdx == spec.shrn(old(leafIdx), i) && 0 <= leafIdx
+//@   loop 5 invariant[XF] hashFunc <= 2 && spec.shrn(old(leafIdx), i) % 2 == 1 ==> bufAuth(buffer, 0, authpath, i) && bufIs(buffer, 32, spec.fold(hashFunc, spec.sub(pub_seed, 32), arr(old(addr)), spec.sub(old(leaf), 32), old(leafIdx), authpath, i))
+//@   loop 5 invariant[XF] hashFunc <= 2 && spec.shrn(old(leafIdx), i) % 2 == 0 ==> bufIs(buffer, 0, spec.fold(hashFunc, spec.sub(pub_seed, 32), arr(old(addr)), spec.sub(old(leaf), 32), old(leafIdx), authpath, i)) && bufAuth(buffer, 32, authpath, i)
+//@   loop 6 invariant 0 <= j && j <= n && authPathOffset == (i+1)*n
+//@   loop 6 invariant[XF] hashFunc <= 2 ==> bufIs(buffer, 32, spec.fold(hashFunc, spec.sub(pub_seed, 32), arr(old(addr)), spec.sub(old(leaf), 32), old(leafIdx), authpath, i+1)) && forall q_ :: 0 <= q_ && q_ < j ==> buffer[q_] == authpath[32*(i+1)+q_]
+//@   loop 7 invariant 0 <= j && j <= n && authPathOffset == (i+1)*n
+//@   loop 7 invariant[XF] hashFunc <= 2 ==> bufIs(buffer, 0, spec.fold(hashFunc, spec.sub(pub_seed, 32), arr(old(addr)), spec.sub(old(leaf), 32), old(leafIdx), authpath, i+1)) && forall q_ :: 0 <= q_ && q_ < j ==> buffer[32+q_] == authpath[32*(i+1)+q_]
 
 //@ func xmssVerifySig
 //@   props C04
